@@ -42,6 +42,13 @@ class KnownFinding:
     def region(self, env):
         scope = {"X": ex, "c": env.c, "env": env, "tags": env.tags, "tmin": core.tmin, "tmax": core.tmax,
                  "bits": core.bits, "signed": core.signed, "fpconst": fpconst}
+        try:
+            from props import fpx
+            import z3
+            scope["fpx"] = fpx
+            scope["z3"] = z3
+        except Exception:
+            pass
         scope.update(env.a)
         return eval(self.region_src, scope)
 
